@@ -32,7 +32,7 @@ struct C19World {
   coap_dtls_cpsk_info_t cinfo{};
   coap_bin_const_t srv_key{};
   std::vector<Req> reqs;
-  std::vector<int> server_order;
+  std::vector<int> server_order, submit_order;
   int connected_events[2] = {0, 0};
   int attacker_handled = 0;
   bool released = false;
@@ -349,6 +349,7 @@ struct C19 : Property {
         coap_add_option(p, COAP_OPTION_URI_PATH, 1, (const uint8_t *)"r");
         Bytes c = canary((int)i);
         coap_add_data(p, c.size(), c.data());
+        cw.submit_order.push_back((int)i);     // (a call blocked in the first exchange lets later calls overtake: the order of the coap_send() calls counts)
         cw.reqs[i].submitted = coap_send(sess, p) != COAP_INVALID_MID;
         w.log("CLIENT-SEND %zu %s", i, cw.reqs[i].con ? "CON" : "NON");
       }, 1);
@@ -411,7 +412,7 @@ struct C19 : Property {
           if (q.con && q.responses == 0 && q.nacks == 0 && !plan.contains("release_ms")) res.violate("T.request_lost", fault_free ? "fault_free" : "with_faults", strfmt("Confirmable request %s queued %s has neither a response nor a NACK at the end", hex(q.token).c_str(), "during/after the handshake"));
           if (fault_free && q.handled != 1) res.violate("T.not_exactly_once", q.handled == 0 ? "never_delivered" : "delivered_twice", strfmt("with matching credentials and no fault, request %s reached the server handler %d times", hex(q.token).c_str(), q.handled));
         }
-        if (fault_free && !std::is_sorted(cw.server_order.begin(), cw.server_order.end()))
+        if (fault_free && cw.server_order != cw.submit_order)
           res.violate("T.order", "queued_messages_reordered", "with matching credentials and no fault the queued requests reached the server out of submission order");
       }
     }
